@@ -111,6 +111,8 @@ def run_C03(ctx):
     drive_and_validate(ctx, [{"driver": "OUT:" + d, "n": k, "probes": 2} for d in
                              ("C01", "C06", "C11", "C14", "C15", "C16", "C19", "C17", "C04", "C09", "C05", "C10", "C08", "C02")])
     drive_and_validate(ctx, [{"driver": "OUT:" + d, "n": max(100, k // 4), "probes": 2} for d in ("C07", "C13")])
+    # the tree builder's rare paths (owners absorbed by horizontal joins) need more of the tiled-ring workload
+    drive_and_validate(ctx, [{"driver": "OUT:C04", "n": sz(ctx, 6400, 60000), "probes": 2}])
 
 
 def run_C04(ctx):
